@@ -204,7 +204,11 @@ class SqlalchemyRender:
                 "NOT": "__invert__",
                 "-": "__neg__",
             }
-            arg = self.to_expression(t.args[0])
+            if t.op == '-' and isinstance(t.args[0], ast.Constant):
+                # the sign in front of a negative number: `--1` would start a comment
+                arg = sa.sql.elements.Grouping(sa.literal(t.args[0].value))
+            else:
+                arg = self.to_expression(t.args[0])
 
             method = opmap[t.op.upper()]
             col = getattr(arg, method)()
